@@ -25,6 +25,7 @@ import (
 	"time"
 
 	"github.com/gobwas/ws"
+	"github.com/gobwas/ws/wsutil"
 
 	"verif/eng"
 	"verif/sim"
@@ -283,6 +284,8 @@ type wrapConn struct{ net.Conn }
 
 type scenario struct {
 	CtxKind      int           // 0 background 1 cancel-only 2 with deadline
+	Debug        int           // 0 ws.Dialer.Dial, 1 wsutil.DebugDialer with both callbacks, 2 with OnResponse only
+	Cause        bool          // the context carries an application cause (WithCancelCause / WithDeadlineCause); ctx.Err() is unaffected by it
 	CtxDeadline  time.Duration // kind 2
 	Timeout      time.Duration // Dialer.Timeout (0 none)
 	ConnectDelay time.Duration
@@ -301,8 +304,8 @@ type scenario struct {
 }
 
 func (s scenario) String() string {
-	return fmt.Sprintf("ctx=%d(dl=%v) timeout=%v connect=%v(ignoreCtx=%v) tls=%v(real=%v) statusBody=%v wrap=%v peer=%d respDelay=%v segs=%d gap=%v trailing=%v rbuf=%d segmax=%d",
-		s.CtxKind, s.CtxDeadline, s.Timeout, s.ConnectDelay, s.IgnoreCtx, s.TLS, s.RealTLS, s.StatusBody, s.Wrap, s.Peer, s.RespDelay, s.Segs, s.Gap, s.Trailing, s.RBuf, s.SegMax)
+	return fmt.Sprintf("debug=%d ctx=%d(dl=%v cause=%v) timeout=%v connect=%v(ignoreCtx=%v) tls=%v(real=%v) statusBody=%v wrap=%v peer=%d respDelay=%v segs=%d gap=%v trailing=%v rbuf=%d segmax=%d",
+		s.Debug, s.CtxKind, s.CtxDeadline, s.Cause, s.Timeout, s.ConnectDelay, s.IgnoreCtx, s.TLS, s.RealTLS, s.StatusBody, s.Wrap, s.Peer, s.RespDelay, s.Segs, s.Gap, s.Trailing, s.RBuf, s.SegMax)
 }
 
 // cancelPlan says when the harness cancels the caller's context.
@@ -372,8 +375,16 @@ func execute(sc scenario, plan cancelPlan) (o *outcome) {
 		switch sc.CtxKind {
 		case 1:
 			ctx, cancel = context.WithCancel(base)
+			if sc.Cause {
+				var cc context.CancelCauseFunc
+				ctx, cc = context.WithCancelCause(base)
+				cancel = func() { cc(errAppCause) }
+			}
 		case 2:
 			ctx, cancel = context.WithDeadline(base, start.Add(sc.CtxDeadline))
+			if sc.Cause {
+				ctx, cancel = context.WithDeadlineCause(base, start.Add(sc.CtxDeadline), errAppCause)
+			}
 		}
 		defer cancel()
 		doCancel := func(wait bool) {
@@ -505,7 +516,17 @@ func execute(sc scenario, plan cancelPlan) (o *outcome) {
 		}
 		synctest.Wait()
 		g0 := runtime.NumGoroutine()
-		o.Conn, o.BR, _, o.Err = d.Dial(ctx, url)
+		if sc.Debug > 0 {
+			// The same Dial through the debugging wrapper: cancellation must
+			// be honoured just the same (it only adds a WrapConn).
+			dd := &wsutil.DebugDialer{Dialer: d, OnResponse: func([]byte) {}}
+			if sc.Debug == 1 {
+				dd.OnRequest = func([]byte) {}
+			}
+			o.Conn, o.BR, _, o.Err = dd.Dial(ctx, url)
+		} else {
+			o.Conn, o.BR, _, o.Err = d.Dial(ctx, url)
+		}
 		o.Returned = time.Since(start)
 		o.CtxErrAtIO = ctx.Err()
 		if o.CtxEndedAt < 0 && ctx.Err() != nil {
@@ -558,10 +579,17 @@ func execute(sc scenario, plan cancelPlan) (o *outcome) {
 // ---------------------------------------------------------------------------
 // The property
 
+// errAppCause is the cause an application attaches to its context.
+var errAppCause = errors.New("application: shutting down")
+
 func drawScenario(r *eng.Run) scenario {
 	ms := time.Millisecond
 	sc := scenario{}
 	sc.CtxKind = r.T.Int(sim.LCfg, 3)
+	sc.Cause = sc.CtxKind != 0 && r.T.Chance(sim.LCfg, 1, 4)
+	if r.T.Chance(sim.LCfg, 1, 5) {
+		sc.Debug = 1 + r.T.Int(sim.LCfg, 2)
+	}
 	sc.Peer = []int{0, 0, 0, 1, 2, 2, 3}[r.T.Int(sim.LCfg, 7)]
 	sc.ConnectDelay = []time.Duration{0, 50 * ms}[r.T.Int(sim.LDelay, 2)]
 	sc.IgnoreCtx = r.T.Chance(sim.LCfg, 1, 3)
@@ -711,8 +739,10 @@ func check(r *eng.Run, sc scenario, plan cancelPlan, o *outcome) {
 	if o.Err == nil {
 		r.Probe("dial_success")
 		// R1
-		if o.Sim == nil {
-			r.Internalf("success without a conn")
+		if o.Sim == nil || o.Conn == nil {
+			// NetDial never produced a connection (or none was handed back),
+			// yet Dial reports success.
+			r.Failf("success_without_conn", "%s: Dial returned a nil error and conn=%v although NetDial produced conn=%v; conn calls:%s", tag, o.Conn != nil, o.Sim != nil, trace)
 		}
 		if o.Closed {
 			r.Failf("success_with_closed_conn", "%s: Dial returned nil error but closed the connection; conn calls:%s", tag, trace)
